@@ -18,9 +18,80 @@ use crate::refmodel::format::{decode_archive, ref_chunk, MAGIC};
 use crate::scen;
 use crate::simio::SimFile;
 
+/// The input file grows while `bita compress -i` reads it: another process appends to it at a
+/// moment the scheduler picks. Whatever compress managed to read is "the source" -- the archive
+/// unpacked by the independent decoder -- and everything the archive records must describe
+/// exactly that: a size taken from the file's metadata at some other moment does not.
+fn growing_input(ctx: &mut Ctx) -> Option<crate::props::c01::Made> {
+    let mut spec = scen::gen_compress_spec(true, false);
+    spec.metadata = scen::cli_safe_metadata(&spec.metadata);
+    let (sspec, initial) = gen::gen_source(&spec.cfg, gen::len_cap(spec.comp, &spec.cfg, 64 * 1024));
+    let mut extra = vec![0u8; 1 + gen::draw(8192) as usize];
+    simkit::prng::Rng::new(gen::t(|t| t.seed64())).fill(&mut extra);
+    scen::put_file("src.bin", &initial);
+    scen::set_stdin(None);
+    scen::quiet(|| {
+        let _ = std::fs::remove_file("a.cba");
+    });
+    let sched = scen::draw_schedule();
+    let extra2 = extra.clone();
+    tokio::__spawn_blocking_detached(move || {
+        use std::io::Write;
+        if let Ok(mut f) = std::fs::OpenOptions::new().append(true).open("src.bin") {
+            let _ = f.write_all(&extra2);
+        }
+    });
+    let r = scen::run(&scen::compress_args(&spec, Some("src.bin"), "a.cba", false));
+    let final_content = scen::get_file("src.bin").unwrap_or_default();
+    let archive = scen::get_file("a.cba").unwrap_or_default();
+    let desc = json!({"writer": "cli-file", "input": "grows while it is read", "initial_len": initial.len(), "appended": extra.len(), "final_len": final_content.len(),
+        "options": spec.json(), "source": sspec.json(), "schedule": sched, "outcome": r.outcome.short()});
+    if ctx.want_sample {
+        ctx.verdict.sample = Some(desc.clone());
+    }
+    simkit::count("probe:input-grows-while-compressed");
+    // O4 (DESIGN.md section 6): the chunker polled again after its last chunk, on a file that grew
+    if matches!(&r.outcome, crate::cli::Outcome::Panic(p) if p.contains("bitar/src/chunker/")) {
+        simkit::count("observation:O4-chunker-polled-again-on-grown-input");
+        return None;
+    }
+    if !r.outcome.is_success() {
+        ctx.fail(&format!("compress-cli:{}", r.outcome.class()), format!("compress of a growing input ended with {}; {}", r.outcome.short(), desc));
+        return None;
+    }
+    let ra = match decode_archive(&archive) {
+        Ok(a) => a,
+        Err(e) => {
+            ctx.fail("header", format!("reference decoder rejects the archive of a growing input: {}; {}", e, desc));
+            return None;
+        }
+    };
+    let recon = match crate::refmodel::format::ref_unpack(&ra, &archive) {
+        Ok(r) => r,
+        Err(e) => {
+            ctx.fail("stored-chunk", format!("the archive of a growing input does not unpack: {}; {}", e, desc));
+            return None;
+        }
+    };
+    if recon.len() < initial.len() || !final_content.starts_with(&recon) {
+        ctx.fail("archive-content", format!("the archive of a growing input unpacks to {} bytes that are not a prefix (of at least the initial {} bytes) of the file; {}", recon.len(), initial.len(), desc));
+        return None;
+    }
+    if recon.len() > initial.len() {
+        simkit::count("probe:appended-bytes-archived");
+    }
+    Some(crate::props::c01::Made { spec, source: Arc::new(recon), archive, writer: "cli-file", desc })
+}
+
 pub fn run(ctx: &mut Ctx) {
     let big = gen::chance(1, if ctx.tier == crate::harness::Tier::Thorough { 40 } else { 400 });
-    let Some(m) = make_archive(ctx, if big { 5 << 20 } else { 96 * 1024 }, big, None) else { return };
+    let m = if !big && gen::chance(1, 14) {
+        let Some(m) = growing_input(ctx) else { return };
+        m
+    } else {
+        let Some(m) = make_archive(ctx, if big { 5 << 20 } else { 96 * 1024 }, big, None) else { return };
+        m
+    };
     let a = &m.archive;
     let src = &m.source;
     let spec = &m.spec;
